@@ -1,4 +1,5 @@
 pub mod c01;
+pub mod c02;
 pub mod c03;
 pub mod c04;
 pub mod c06;
@@ -13,6 +14,7 @@ pub fn run(prop: &str, tier: Tier, seed: u64) -> i32 {
     let findings = Findings::load();
     match prop {
         "C01" => c01::run(tier, seed, &findings),
+        "C02" => c02::run(tier, seed, &findings),
         "C03" => c03::run(tier, seed, &findings),
         "C04" => c04::run("C04", tier, seed, &findings),
         "C05" => c04::run("C05", tier, seed, &findings),
@@ -39,6 +41,7 @@ pub fn replay(path: &str) -> i32 {
     let prop = v["property"].as_str().unwrap_or("").to_string();
     match prop.as_str() {
         "C01" => c01::replay(&v, path, &findings),
+        "C02" => c02::replay(&v, path, &findings),
         "C03" => c03::replay(&v, path, &findings),
         "C04" => c04::replay("C04", &v, path, &findings),
         "C05" => c04::replay("C05", &v, path, &findings),
